@@ -354,10 +354,23 @@ def gen_steps(r, cols: Dict[str, str], tables: Dict[str, Dict[str, str]], max_st
             else:
                 expr = f"{v}.{fn}()"
             st = {"t": "extend", "ops": {new: expr}, "partition_by": part, "order_by": order, "reverse": rev}
+            newk = "nn" if fn in ("_row_number", "rank", "_count", "cumcount") else ("float" if cols[v] == "float" else "int")
+            # an unordered window over the same partition right next to the ordered one (independent columns): the
+            # builder decides whether the two may share a node; the ordered step must keep its ordering either way
+            neighbour = None
+            if r.random() < 0.3:
+                new2 = _fresh({**cols, new: newk}, "w")
+                neighbour = {"t": "extend", "ops": {new2: f"{r.choice(nums)}.{r.choice(['sum', 'max', 'min', 'mean'])}()"},
+                             "partition_by": list(part)}
+                before = r.random() < 0.3
+                if before:
+                    steps.append(neighbour)
             steps.append(st)
-            cols[new] = "nn" if fn in ("_row_number", "rank", "_count", "cumcount") else ("float" if cols[v] == "float" else "int")
-            if fn in ("_row_number",):
-                cols[new] = "nn"
+            if neighbour is not None:
+                if not before:
+                    steps.append(neighbour)
+                cols[new2] = "float"
+            cols[new] = newk
         elif kind == "project" and nums and depth < 2 and r.random() < 0.12:
             ops = {}
             for _ in range(r.choice([1, 2])):
